@@ -21,6 +21,14 @@ def model_check(ctx, quick):
 
 def run(ctx, whats, nbeh, depth, judge="C07"):
     behs = vlib.gen_behaviours(ctx, "GenLifecycle", "GenLifecycle.cfg", num=nbeh, depth=depth * 3, env={"GEN_DEPTH": depth})[:nbeh]
+    # directed scenario for the open findings C07/finalizer-not-on-input-ignore-teardown and
+    # C06/not-converged-ignore-teardown-orphan (known_findings.json), replayed with controller configuration 5
+    # (qtransform, ignore-teardown-until) so that every run reports them deterministically
+    def c(op, id=1, v=1):
+        return {"c": op, "id": id, "v": v}
+    behs[5] = [c("arm"), c("create", 2, 1), c("create", 1, 1), c("addX", 1), c("td", 1), c("release"), c("wait"),
+               c("arm"), c("update", 2, 2), c("remX", 1), c("destroy", 1), c("release"), c("wait")]
+    ctx.cov["directed_known_finding_scenarios"] = 1
     ctx.cov["behaviours_replayed"] = len(behs)
     ctx.sample({"external_ops_head": behs[0][:10]})
     inp = os.path.join(ctx.scratch, "lbehs.json")
